@@ -17,6 +17,9 @@ import (
 	"verif/memnet"
 )
 
+// prefill: the connection first carries many distinct uncommon header names (per-connection caches / HPACK tables non-initial)
+var prefill bool
+
 type opt struct {
 	name  string
 	lines [][2]string
@@ -64,7 +67,13 @@ func TestCheck(t *testing.T) {
 					if job%of != shard {
 						continue
 					}
+					prefill = false
 					runGroup(t, rep, preserve, pr, proto, xff, hosts)
+					if ev.Thorough() || job%3 == 0 {
+						prefill = true
+						runGroup(t, rep, preserve, pr, proto, xff, hosts)
+						prefill = false
+					}
 				}
 			}
 		}
@@ -92,6 +101,23 @@ func runGroup(t *testing.T, rep *ev.Report, preserve bool, pr peer, proto string
 		col := bubble.NewH2Collector()
 		stream := uint32(1)
 		n := 0
+		if prefill {
+			// the connection first carries a request with many distinct, long, uncommon header names
+			var fl [][2]string
+			for i := 0; i < 48; i++ {
+				fl = append(fl, [2]string{fmt.Sprintf("X-Filler-Header-Name-Number-%02d-%s", i, strings.Repeat("z", 40)), "f"})
+			}
+			rq := bubble.Req{Path: "/fill", Host: "localhost", Lines: fl}
+			if proto == "h1" {
+				cl.SendH1(rq)
+			} else {
+				cl.SendH2(stream, rq)
+				stream += 2
+			}
+			synctest.Wait()
+			cl.TakeH1Responses()
+			col.Add(cl.Dec, cl.TakeFrames())
+		}
 		for _, fwd := range opts3("Forwarded") {
 			for _, xfh := range opts3("X-Forwarded-Host") {
 				for _, xfp := range opts3("X-Forwarded-Proto") {
@@ -108,6 +134,10 @@ func runGroup(t *testing.T, rep *ev.Report, preserve bool, pr peer, proto string
 						rq := bubble.Req{Path: path, Host: host, Lines: lines}
 						if proto == "h2" && n%2 == 0 {
 							rq.Scheme = "http" // legal on a TLS connection (e.g. from an intermediary); the connection is still TLS
+						}
+						if proto == "h2" && n%3 == 0 {
+							// a Host field next to a differing :authority: the request target is :authority (RFC 9113 section 8.3.1)
+							rq.Lines = append(append([][2]string(nil), lines...), [2]string{"Host", "internal-admin.example"})
 						}
 						if proto == "h1" {
 							cl.SendH1(rq)
@@ -134,7 +164,7 @@ func runGroup(t *testing.T, rep *ev.Report, preserve bool, pr peer, proto string
 							return
 						}
 						got := st.Backend.All()[before]
-						desc := fmt.Sprintf("%s preserve=%v peer=%s xff=%s fwd=%s xfh=%s xfp=%s host=%s", proto, preserve, pr.name, xff.name, fwd.name, xfh.name, xfp.name, host)
+						desc := fmt.Sprintf("%s preserve=%v peer=%s xff=%s fwd=%s xfh=%s xfp=%s host=%s prefilled=%v", proto, preserve, pr.name, xff.name, fwd.name, xfh.name, xfp.name, host, prefill)
 						if len(lines) > 1 {
 							rep.Note("distinct_nontrivial", desc)
 						}
